@@ -20,8 +20,10 @@ ASSUMPTIONS = ["SAM text parsing is biogo/hts (trusted); the model starts from t
 
 def make_case(cid, ref, recs, opts, meta, with_oracle=True):
     samb = samgen.render_sam("ref", len(ref), recs, trail=opts.get("trail", True))
+    # how the bytes reach the command is no part of the SAM file: one case in four is read through a reader that delivers its last
+    # bytes together with io.EOF (compress/gzip, network streams), one byte at a time, or in half-filled buffers
     go = {"id": cid, "op": "toma", "sam": cm.b64(samb), "wrap": opts["wrap"], "start": opts["start"], "end": opts["end"],
-          "pad": opts["pad"], "threads": opts["threads"]}
+          "pad": opts["pad"], "threads": opts["threads"], "reader": ["", "", "", "", "dataerr", "dataerr", "onebyte", "half"][cid % 8]}
     exp = samgen.expected_toma(recs, len(ref), opts["pad"], opts["start"], opts["end"], opts["wrap"]) if with_oracle else None
     def coq(obs):
         return "(%d%%nat, %s, %d%%nat, (%d)%%Z, (%d)%%Z, %s, %s, %s)" % (
